@@ -12,6 +12,7 @@ import (
 	"fmt"
 	"hash/fnv"
 	"os"
+	"sort"
 	"strconv"
 	"strings"
 
@@ -91,6 +92,7 @@ func main() {
 		genF7(add)
 		genF8(add)
 		genF9(add)
+		genF11(add)
 		// F10: every decoder count 1..34 (channel capacities 10/n change at 2,3,4,6,11) on files of 0..8 blocks
 		if os.Getenv("C01_PROCS") == "" {
 			only = nil
@@ -580,6 +582,68 @@ func genF9(add func(tcase)) {
 			{Groups: []pbfgen.Group{{Ways: []pbfgen.Way{w2, w}}, {Dense: d}}, Enc: pbfgen.Enc{Raw: true}},
 		}}
 		add(tcase{Family: "F9", Desc: fmt.Sprintf("%d dense nodes / way refs / members per element, large and negative ids", n), File: f, NonTrivial: true})
+	}
+}
+
+// ---- F11: uid / user name combinations ----
+//
+// The same uid under different user names (a user who renamed), the same name
+// under different uids, uid 0 with a name, a uid without name - inside one
+// block, in consecutive groups and in consecutive blocks: what one element
+// says about a user says nothing about the next.
+func genF11(add func(tcase)) {
+	type who struct {
+		uid  int32
+		name string
+	}
+	patterns := map[string][]who{
+		"one uid, three names":    {{777, "first"}, {777, "second"}, {777, ""}, {777, "third"}, {777, "first"}, {777, "fourth"}},
+		"one name, three uids":    {{1, "same"}, {2, "same"}, {0, "same"}, {3, "same"}, {1, "same"}, {2, "same"}},
+		"uid 0 and anonymous":     {{0, "ghost"}, {0, ""}, {5, ""}, {0, "ghost2"}, {5, "five"}, {0, ""}},
+		"names swap between uids": {{10, "a"}, {11, "b"}, {10, "b"}, {11, "a"}, {10, "a"}, {11, "b"}},
+	}
+	names := make([]string, 0, len(patterns))
+	for n := range patterns {
+		names = append(names, n)
+	}
+	sort.Strings(names)
+	for _, pn := range names {
+		ws := patterns[pn]
+		mk := func(kind int, id int64, w who) pbfgen.Group {
+			switch kind {
+			case 0:
+				n1, n2 := pbfgen.DenseNode(id, id), pbfgen.DenseNode(id+1, id+1)
+				n1.UID, n1.User = w.uid, w.name
+				n2.UID, n2.User = ws[(int(id)+1)%len(ws)].uid, ws[(int(id)+1)%len(ws)].name
+				return pbfgen.Group{Dense: &pbfgen.Dense{Info: true, Cols: pbfgen.ColsMask(63), KeysVals: true, Nodes: []pbfgen.DNode{n1, n2}}}
+			case 1:
+				in := pbfgen.FullInfo(id)
+				in.UID, in.User = pbfgen.I32(w.uid), pbfgen.Str(w.name)
+				return pbfgen.Group{Ways: []pbfgen.Way{{ID: id, Info: in, Refs: []int64{1, 2}}}}
+			}
+			in := pbfgen.FullInfo(id)
+			in.UID, in.User = pbfgen.I32(w.uid), pbfgen.Str(w.name)
+			return pbfgen.Group{Relations: []pbfgen.Relation{{ID: id, Info: in, Members: []pbfgen.Member{{Type: 0, Ref: 1, Role: "r"}}}}}
+		}
+		// layouts: all in one block as consecutive groups / one group per block / two per block
+		for _, perBlock := range []int{6, 1, 2} {
+			for _, rot := range []int{0, 1, 2} {
+				var blocks []pbfgen.Block
+				var cur pbfgen.Block
+				for i, w := range ws {
+					cur.Groups = append(cur.Groups, mk((i+rot)%3, int64(10*(i+1)), w))
+					if len(cur.Groups) == perBlock {
+						blocks = append(blocks, cur)
+						cur = pbfgen.Block{}
+					}
+				}
+				if len(cur.Groups) > 0 {
+					blocks = append(blocks, cur)
+				}
+				add(tcase{Family: "F11", Desc: fmt.Sprintf("%s, %d groups per block, kinds rotated by %d", pn, perBlock, rot), NonTrivial: true,
+					File: &pbfgen.File{Header: pbfgen.StdHeader(), Blocks: blocks}})
+			}
+		}
 	}
 }
 
